@@ -32,6 +32,7 @@ class Alt:
     cond: Any = None              # (param, op, literal)
     attrs: List[str] = field(default_factory=list)
     code: Optional[str] = None    # verbatim action override (printer only)
+    prec: Any = None              # (level:int|None, assoc:str|None) -> #[precedence]/#[assoc] attributes
 
 
 @dataclass
@@ -219,6 +220,11 @@ def nt_text(nt):
 
 def alt_text_full(alt, nt):
     parts = list(alt.attrs)
+    if alt.prec:
+        if alt.prec[0] is not None:
+            parts.append('#[precedence(level="%d")]' % alt.prec[0])
+        if alt.prec[1] is not None:
+            parts.append('#[assoc(side="%s")]' % alt.prec[1])
     body = " ".join(item_text(i) for i in alt.items)
     if alt.cond:
         body += ' if %s %s "%s"' % alt.cond
@@ -287,10 +293,87 @@ class Desugar:
         return CFG(self.prods, self.terms, self.g.starts())
 
     def do_nt(self, lhs, nt, env):
+        if any(a.prec for a in nt.alts):
+            return self.do_prec_nt(lhs, nt, env)
         for alt in nt.alts:
             if alt.cond and not self.cond_holds(alt.cond, env):
                 continue
             self.do_alt(lhs, alt, env, unit=nt.unit)
+
+    # reference tier builder for #[precedence]/#[assoc] (DESIGN appendix A.4, from the statement)
+    def do_prec_nt(self, lhs, nt, env):
+        level, assoc = None, "all"
+        ann = []
+        for alt in nt.alts:
+            if alt.cond and not self.cond_holds(alt.cond, env):
+                continue
+            l, a = alt.prec if alt.prec else (None, None)
+            if l is not None:
+                level, assoc = l, "all"
+            if a is not None:
+                assoc = a
+            if level is None:
+                raise ValueError("first alternative without precedence")
+            ann.append((level, assoc, alt))
+        levels = sorted({l for l, _, _ in ann})
+        tier = {}
+        for i, l in enumerate(levels):
+            tier[l] = lhs if i == len(levels) - 1 else "%s~lvl%d" % (lhs, l)
+        for i, l in enumerate(levels):
+            cur = tier[l]
+            prev = tier[levels[i - 1]] if i > 0 else None
+            for (al, assoc, alt) in ann:
+                if al != l:
+                    continue
+                occ = self._count_occ(alt.items, nt.name)
+                if assoc in ("left", "right", "none") and prev is None:
+                    raise ValueError("associativity on the first level")
+                plan = []
+                for k in range(occ):
+                    if assoc == "all":
+                        plan.append(cur)
+                    elif assoc == "none":
+                        plan.append(prev)
+                    elif assoc == "left":
+                        plan.append(cur if k == 0 else prev)
+                    elif assoc == "right":
+                        plan.append(cur if k == occ - 1 else prev)
+                    else:
+                        raise ValueError(assoc)
+                it = iter(plan)
+                items2 = [Item(self._rewrite(x.sym, nt.name, it), x.bind) for x in alt.items]
+                alt2 = Alt(items2, action=alt.action, fallible=alt.fallible, pid=alt.pid)
+                self.do_alt(cur, alt2, env, unit=nt.unit)
+            if prev is not None:
+                self.prods.append(Prod(cur, [prev], ("pick", 0), meta="tier"))
+
+    def _count_occ(self, items, name):
+        n = 0
+        for it in items:
+            n += self._count_sym(it.sym, name)
+        return n
+
+    def _count_sym(self, s, name):
+        if s.k == "n":
+            return 1 if s.name == name else 0
+        if s.k == "rep":
+            return self._count_sym(s.inner, name)
+        if s.k == "grp":
+            return sum(self._count_sym(i.sym, name) for i in s.items)
+        if s.k == "mac":
+            return sum(self._count_sym(a, name) for a in s.args)
+        return 0
+
+    def _rewrite(self, s, name, it):
+        if s.k == "n":
+            return N(next(it)) if s.name == name else s
+        if s.k == "rep":
+            return Sym("rep", op=s.op, inner=self._rewrite(s.inner, name, it))
+        if s.k == "grp":
+            return Sym("grp", items=[Item(self._rewrite(i.sym, name, it), i.bind) for i in s.items])
+        if s.k == "mac":
+            return Sym("mac", s.name, args=[self._rewrite(a, name, it) for a in s.args])
+        return s
 
     def cond_holds(self, cond, env):
         import re as _re
